@@ -332,6 +332,33 @@ fn run_closure_l<L: Language>(case: &Hist, dir: Dir, obs: &mut Obs) -> Result<()
         }
     }
 
+    // thorough tier: executable guard of the pool-size argument (DESIGN 2.4): a sample of histories is re-decided with a pool
+    // that is larger by two names; all answers on inserted (sub)terms must coincide.  A disagreement is a failed self-check
+    // of the oracle (exit 2), never a violation.
+    if crate::engine::is_thorough() && dir == Dir::Sound && case.render().len() % 8 == 0 {
+        let g2 = escalate(case, case.ops.len(), n_small + 2);
+        if !g2.too_big {
+            let subs = all_subterms(&added);
+            for (i, a) in subs.iter().enumerate() {
+                for b in subs.iter().skip(i + 1) {
+                    if let (Some(x), Some(y)) = (g.eq_terms(a, b), g2.eq_terms(a, b)) {
+                        obs.count("oracle-selfcheck-comparisons", 1);
+                        if x != y {
+                            return Err(format!("INCONCLUSIVE: oracle self-check: pools {} and {} disagree on {} = {}", n_small, n_small + 2, a.render(nm), b.render(nm)));
+                        }
+                    }
+                }
+                for x in a.fv() {
+                    if let (Some(p), Some(q)) = (g.redundant(a, x), g2.redundant(a, x)) {
+                        if p != q {
+                            return Err(format!("INCONCLUSIVE: oracle self-check: pools {} and {} disagree on the redundancy of {} in {}", n_small, n_small + 2, nm.slot(x), a.render(nm)));
+                        }
+                    }
+                }
+            }
+            obs.label("oracle-selfcheck");
+        }
+    }
     // classification
     if case.ops.iter().any(|o| matches!(o, HOp::Add(t) if t.kids().iter().any(|(b, _)| !b.is_empty()))) {
         obs.label("binder");
